@@ -287,7 +287,9 @@ func (it *indexedMessageIterator) loadChunk(chunkIndex *ChunkIndex) error {
 		copy(chunkSlot.buf, parsedChunk.Records)
 	case CompressionZSTD:
 		if it.zstdDecoder == nil {
-			it.zstdDecoder, err = zstd.NewReader(nil)
+			// the frame header's content size is taken from the file: cap what DecodeAll
+			// may allocate for it at the same 2 GiB the rest of the library allows
+			it.zstdDecoder, err = zstd.NewReader(nil, zstd.WithDecoderMaxMemory(math.MaxInt32))
 			if err != nil {
 				return fmt.Errorf("failed to instantiate zstd decoder: %w", err)
 			}
